@@ -7,6 +7,7 @@ import (
 	"encoding/json"
 	"fmt"
 	"github.com/trustbloc/sidetree-core-go/pkg/patch"
+	"io"
 	"math/rand"
 	"reflect"
 	"strings"
@@ -349,7 +350,68 @@ func c13Large(r *out.Run) {
 			break
 		}
 	}
+	// (c) limits are inclusive on the reading side too: a node whose decompressed-size limit for the chunk file is
+	// EXACTLY the size of this chunk file reads the batch back
+	for _, a := range info.Artifacts {
+		if a.Desc != "chunk file" {
+			continue
+		}
+		raw, err := cas.Read(a.ID)
+		if err != nil {
+			break
+		}
+		zr, err := gzip.NewReader(bytes.NewReader(raw))
+		if err != nil {
+			break
+		}
+		content, _ := io.ReadAll(zr)
+		pe := p
+		pe.MaxMemoryDecompressionFactor = 1
+		pe.MaxChunkFileSize = uint(len(content))
+		verE := world.NewVersion("exact", pe, world.VersionOpts{CAS: cas})
+		rbE, errE := verE.Provider.GetTxnOperations(&txn.SidetreeTxn{AnchorString: info.AnchorString, Namespace: "did:sidetree"})
+		r.Count("chunk_file_exactly_at_the_decompressed_limit", fmt.Sprintf("read_back_ok=%v", errE == nil))
+		if errE != nil || len(rbE) != len(q) {
+			r.Direct = append(r.Direct, out.Direct{Oracle: "read_back_succeeds", What: fmt.Sprintf("chunk file of %d bytes under a decompressed-size limit of %d: %d operations, err %v", len(content), len(content), len(rbE), errE), Case: desc})
+		}
+	}
+	// (d) a handler is used for one batch after another: a batch that failed because of a CAS error is prepared again
+	// (it went back to the queue) and must come out as if the failure had not happened
+	fc := &flakyCAS{inner: world.NewMapCAS()}
+	verF := world.NewVersion("retry", p, world.VersionOpts{CAS: fc})
+	small := q[:3]
+	fc.failAt = 2
+	if _, err := verF.Handler.PrepareTxnFiles(small); err == nil {
+		r.Direct = append(r.Direct, out.Direct{Oracle: "cas_write_failure_fails_the_batch", What: "PrepareTxnFiles succeeded although a CAS write failed", Case: desc})
+	}
+	info2, err2 := verF.Handler.PrepareTxnFiles(small)
+	r.Count("prepare_retried_after_cas_failure", fmt.Sprintf("ok=%v", err2 == nil))
+	if err2 != nil || len(info2.OperationReferences) != len(small) || len(info2.AdditionalOperations) != 0 || len(info2.ExpiredOperations) != 0 {
+		what := fmt.Sprint(err2)
+		if err2 == nil {
+			what = fmt.Sprintf("references %d, deferred %d, expired %d of %d", len(info2.OperationReferences), len(info2.AdditionalOperations), len(info2.ExpiredOperations), len(small))
+		}
+		r.Direct = append(r.Direct, out.Direct{Oracle: "retried_batch_is_prepared_like_a_first_attempt", What: what, Case: desc})
+	} else if rb2, e := verF.Provider.GetTxnOperations(&txn.SidetreeTxn{AnchorString: info2.AnchorString, Namespace: "did:sidetree"}); e != nil || len(rb2) != len(small) {
+		r.Direct = append(r.Direct, out.Direct{Oracle: "read_back_succeeds", What: fmt.Sprintf("retried batch: %d operations read back, err %v", len(rb2), e), Case: desc})
+	}
 }
+
+// flakyCAS fails its failAt-th write (once).
+type flakyCAS struct {
+	inner  *world.MapCAS
+	writes int
+	failAt int
+}
+
+func (c *flakyCAS) Write(b []byte) (string, error) {
+	c.writes++
+	if c.writes == c.failAt {
+		return "", fmt.Errorf("injected CAS write failure")
+	}
+	return c.inner.Write(b)
+}
+func (c *flakyCAS) Read(k string) ([]byte, error) { return c.inner.Read(k) }
 
 // ---------------------------------------------------------------------------------------------
 // C14: mutated file sets.
@@ -487,6 +549,15 @@ func (e *batchEnv) store(fs *fileSet) string {
 		uri := e.storeFile("chunk", fs.chunk, fs, e.p.MaxChunkFileSize)
 		if _, keep := fs.provIndex["_keepchunks"]; !keep {
 			fs.provIndex["chunks"] = []interface{}{map[string]interface{}{"chunkFileUri": uri}}
+		}
+		if _, two := fs.provIndex["_twochunks"]; two {
+			// two chunk entries, the first (the one that is read) under a URI longer than the limit
+			if stored, err := e.cas.Read(uri); err == nil {
+				long := uri + strings.Repeat("y", int(e.p.MaxCasURILength))
+				e.cas.Put(long, stored)
+				fs.provIndex["chunks"] = []interface{}{map[string]interface{}{"chunkFileUri": long}, map[string]interface{}{"chunkFileUri": uri}}
+			}
+			delete(fs.provIndex, "_twochunks")
 		}
 	}
 	if fs.provIndex != nil {
@@ -719,6 +790,31 @@ func allMutations() []mutation {
 			return true
 		}},
 		mutation{name: "anchor:extra-part", f: func(e *batchEnv, fs *fileSet) bool { fs.anchorCount += ".1"; return true }},
+		mutation{name: "provIndex.chunks:two-entries-first-uri-too-long", f: func(e *batchEnv, fs *fileSet) bool {
+			if fs.provIndex == nil || fs.chunk == nil {
+				return false
+			}
+			fs.provIndex["_twochunks"] = true
+			return true
+		}},
+		mutation{name: "coreProof.deactivate:superfluous-proof-without-deactivate", f: func(e *batchEnv, fs *fileSet) bool {
+			if fs.coreProof == nil || fs.core == nil {
+				return false
+			}
+			if l, _ := listAt(fs.core, "operations", "deactivate"); len(l) > 0 {
+				return false
+			}
+			rec, _ := listAt(fs.coreProof, "operations", "recover")
+			if len(rec) == 0 {
+				return false
+			}
+			ops, _ := fs.coreProof["operations"].(map[string]interface{})
+			if ops == nil {
+				return false
+			}
+			ops["deactivate"] = []interface{}{rec[0]}
+			return true
+		}},
 		mutation{name: "anchor:count-only", f: func(e *batchEnv, fs *fileSet) bool { fs.countOnly = true; return true }},
 		mutation{name: "anchor:count-only-large", f: func(e *batchEnv, fs *fileSet) bool { fs.countOnly, fs.anchorCount = true, "12345"; return true }},
 	)
